@@ -1,18 +1,38 @@
 #!/venv/bin/python
 """impl_run.py – runs IMPL (/repo, via PYTHONPATH) on a case file and prints one
 observation per line.  usage: impl_run.py <Cxx> <cases> <out>"""
-import importlib, os, sys
+import importlib, os, signal, sys
 
 HERE = os.path.dirname(os.path.abspath(__file__))
 sys.path.insert(0, HERE)
 import vals  # noqa: E402
 
 
+class CaseTimeout(BaseException):
+    pass
+
+
+def _alarm(signum, frame):
+    raise CaseTimeout()
+
+
+CASE_SECONDS = int(os.environ.get('VERIF_CASE_SECONDS', '120'))
+
+
 def run_one(mod, line):
     vs = vals.parse_line(line)
     engine, args = vs[0], vs[1:]
     try:
-        r = mod.run(engine % 100, args)
+        # every library call terminates: a case that runs for more than CASE_SECONDS is reported as the
+        # marker e997 (no MODEL produces it) instead of hanging the check
+        signal.signal(signal.SIGALRM, _alarm)
+        signal.alarm(CASE_SECONDS)
+        try:
+            r = mod.run(engine % 100, args)
+        finally:
+            signal.alarm(0)
+    except CaseTimeout:
+        r = vals.Err(997)
     except RecursionError:
         r = vals.Err(999)
     except BaseException as e:  # noqa
